@@ -66,6 +66,11 @@ type KnownASG struct {
 	Min, Max  int64
 	Desired   int64
 	Instances map[string]string // instance id -> provider id
+	// Ambiguous: since the last Refresh the code was served a describe answer for this group that says
+	// something else than this model. Whether the provider took it over (a provider is free to look again
+	// before it acts) cannot be seen from outside, so what "the current desired size / membership" is for
+	// the code is not known until the next Refresh: snapshots are handed out as not Valid.
+	Ambiguous bool
 }
 
 func (k *KnownASG) clone() *KnownASG {
@@ -73,6 +78,9 @@ func (k *KnownASG) clone() *KnownASG {
 		return &KnownASG{}
 	}
 	c := *k
+	if c.Ambiguous {
+		c.Valid = false
+	}
 	c.Instances = make(map[string]string, len(k.Instances))
 	for a, b := range k.Instances {
 		c.Instances[a] = b
@@ -188,6 +196,9 @@ type GroupScan struct {
 	NodesListed bool
 	Pods     []*v1.Pod
 	Nodes    []*v1.Node
+	KnownAmbiguous bool // see KnownASG.Ambiguous: true if it held at any point of this group's turn
+	TLeave time.Time // the group's turn ended (another group's began, or the scan returned)
+	TEnter time.Time // the group's turn began (first call of one of its listers)
 	TList    time.Time
 	Calls    []*Call
 	Gauges   map[string]float64
